@@ -16,9 +16,9 @@ PYTHONPATH=$wt/src /venv/bin/python -m pytest -q -p no:cacheprovider src/tests 2
 PYTHONPATH=$wt/src /venv/bin/python -m pytest -q -p no:cacheprovider src/tests 2>&1 | grep "^FAILED" | sed 's/ - .*//' | sort > "$out/.failed"
 echo "--- demo WITH change:"
 ( cd "$wt" && PYTHONPATH=$wt/src timeout 120 /venv/bin/python "$demo" > "$out/.demo_with" 2>&1; echo "exit=$?" | tee "$out/.demo_with_exit" ); tail -3 "$out/.demo_with"
-git stash -q
+git apply -R "$out/patch.diff" || { echo "CANNOT REVERT"; exit 9; }
 echo "--- demo WITHOUT change:"
 ( cd "$wt" && PYTHONPATH=$wt/src timeout 120 /venv/bin/python "$demo" > "$out/.demo_without" 2>&1; echo "exit=$?" | tee "$out/.demo_without_exit" ); tail -2 "$out/.demo_without"
-git stash pop -q
+git apply "$out/patch.diff" || { echo "CANNOT REAPPLY"; exit 9; }
 echo "--- my check against it ($id quick):"
 /verif/tools/with_mutant.sh "$out/patch.diff" /verif/check $id --tier quick 2>&1 | grep -E "^VIOLATION|^violation|HARNESS|runs=|PATCH|KNOWN" | head -8 | tee "$out/.check"
